@@ -3,7 +3,7 @@ use crate::document::{as_pos_range, DocumentRequest};
 use color_eyre::eyre::Result;
 use lsp_types::{Hover, HoverContents, HoverParams, MarkupContent, MarkupKind, Range as PosRange};
 use spl_frontend::{
-    table::{Entry, GlobalEntry, LookupTable, SymbolTable, TableEntry},
+    table::{Entry, GlobalEntry, SymbolTable, TableEntry},
     ToRange,
 };
 use tokio::sync::mpsc::Sender;
@@ -25,7 +25,7 @@ pub async fn hover(doctx: Sender<DocumentRequest>, params: HoverParams) -> Resul
     let doc_params = params.text_document_position_params;
     if let Some(cursor) = super::doc_cursor(doc_params, doctx).await? {
         if let Some(ident) = &cursor.ident() {
-            let on_context_name = cursor.is_context_name(ident);
+            let scope = cursor.scope(ident);
             let DocumentCursor { doc, context, .. } = cursor;
             if let Some(entry) = context {
                 match &entry {
@@ -38,16 +38,7 @@ pub async fn hover(doctx: Sender<DocumentRequest>, params: HoverParams) -> Resul
                         }
                     }
                     GlobalEntry::Procedure(p) => {
-                        let lookup_table = LookupTable {
-                            global_table: Some(&doc.table),
-                            local_table: Some(&p.local_table),
-                        };
-                        let entry = if on_context_name {
-                            // the name of the procedure itself is not shadowed by its locals
-                            Some(Entry::Procedure(p))
-                        } else {
-                            lookup_table.lookup(&ident.value)
-                        };
+                        let entry = scope.lookup(&ident.value, p, &doc.table);
                         if let Some(entry) = entry {
                             return Ok(Some(create_hover(
                                 &entry,
